@@ -26,7 +26,7 @@ CHECKS['C08'] = (OTHER, 'symbolic execution of the real Panel.calc_fint/calc_kT 
     'DESIGN.md section 4 C08')
 CHECKS['C01'] = (OTHER, 'symbolic execution of the real read_stack/Lamina.rebuild/calc_constitutive_matrix on symbolic (cos,sin), thicknesses, materials, offset vs explicit tensor-rotation + through-thickness integral oracle; relational corollaries between executions; z3 qfnra-nlsat; exact-rational replay',
     'Bounded symbolic verification for N plies (quick 1-2, thorough 1-4), all three material tuple forms, both argument forms: every A/B/D/E/ABD/ABDE entry equals the integral of the rotated ply stiffness for all real inputs; symmetry, d-shift, mid-plane symmetry, ply-order independence of A, angle mirroring, 90-degree rotation; positive definiteness via three NRA lemmas.',
-    'Angles only through (cos,sin) with c^2+s^2=1; reals; numpy object arrays; N bounded.',
+    'Angles only through (cos,sin) with c^2+s^2=1; reals; numpy object arrays; N bounded. Supplementary, not deciding: a number-type twin (the same laminates with integer-typed and float-typed numbers through the real read_stack).',
     'DESIGN.md section 4 C01')
 CHECKS['C04'] = (OTHER, 'symbolic execution of the real Panel.calc_kM over de-Cythonised fkM/fkMy1y2 vs kinetic-energy Hessian oracle (z-origin = laminate offset convention); coupling sign and magnitude as separate obligations; total mass with exactly interpreted tables; z3 qfnra-nlsat; exact-rational replay; compiled-vs-twin translator validation',
     'Bounded symbolic verification for all real mu, thicknesses, offset of either sign, geometry, flags, sub-intervals: translational, coupling, rotary terms; tiling; placement; unit rigid translation gives mu*h*area.',
@@ -58,11 +58,11 @@ CHECKS['C05'] = (OTHER, 'symbolic execution of the real analysis.lb / Panel.lb o
     'DESIGN.md section 4 C05')
 CHECKS['C06'] = (OTHER, 'symbolic execution of the real analysis.freq / Panel.freq over symbolic matrices under a forking comparison policy (the wrapper null detection, sort and filter decide on symbolic values) with ARPACK/LAPACK contract stubs; z3 proves residual, zeros, pairing per column and positivity/ascending order after sort on every path; exceptions and residual failures replayed on the real function with scipy',
     'Bounded symbolic verification of the wrapper code: sizes 6..9, null patterns, num_eigvalues 1..25, sparse/dense, sort on/off, reduced_dof (condensed block), second analysis after a redefinition: K v = omega^2 M v on the full size under the solver contract, zeros on removed amplitudes, ascending positive frequencies after sort, no exception for admissible inputs.',
-    'ARPACK/LAPACK numerics are contract stubs; rounding in the sort key not modelled; complex (aerodynamic) spectra outside; known finding: reduced_dof is an approximation by design. Supplementary, not deciding: float twins of the wrapper configurations on the real route; a source audit (ast) of every call of freq in the package for an unconditional reduced_dof=True.',
+    'ARPACK/LAPACK numerics are contract stubs; rounding in the sort key not modelled; complex (aerodynamic) spectra outside; known finding: reduced_dof is an approximation by design. Supplementary, not deciding: float twins of the wrapper configurations on the real route; a source audit (ast) of every call of freq in the package for an unconditional reduced_dof=True; Panel.freq on the compiled build with the mass density scaled down to 1e-15 (1/sqrt(s) law, both paths).',
     'DESIGN.md section 4 C06')
 CHECKS['C07'] = (OTHER, 'symbolic execution of the real Panel.calc_fext / PanelAssembly.calc_fext over de-Cythonised fg and fuvw (virtual work against the package own displacement recovery and against the oracle basis), and of sparse.solve / analysis.static / Analysis.static with an spsolve contract stub; z3 qfnra-nlsat; exact-rational replay',
     'Bounded symbolic verification for all force positions, components, load factors, amplitudes, flags, geometry: load vector = virtual work of the loads (constant forces unscaled, incrementable ones scaled), assembly slices at the panel ranges, K c = f on active rows and c = 0 on null columns for null patterns of sizes 4..6.',
-    'spsolve is a contract stub; bay load vectors are claimed with C13; linearity in the loads is a corollary. Supplementary, not deciding: float twins of the solve configurations on the real route (incl. a second system with the same diagonal).',
+    'spsolve is a contract stub; tolerance tests of the executed code on the load vector (np.allclose) are forked, each outcome under its condition; bay load vectors are claimed with C13; linearity in the loads is a corollary. Supplementary, not deciding: float twins of the solve configurations on the real route (incl. a second system with the same diagonal).',
     'DESIGN.md section 4 C07')
 CHECKS['C13'] = (OTHER, 'relational symbolic execution of the real StiffPanelBay / PanelAssembly objects (all bookkeeping) over de-Cythonised panel, connection and stiffener kernels: global result vs re-composition of stand-alone component results at independently derived ranges; skin partition under the C10 additivity lemma; z3 qfnra-nlsat; exact-rational replay',
     'Bounded symbolic verification of the assembly layers for bays with 0..2 (thorough 4) stiffeners of the three kinds in any order, with/without base, assemblies of 2-3 panels of unequal series orders: size = sum of component sizes, k0/kG0/kM (and kT, fint, fext, recovered fields) = sum of component results at their ranges + connection terms, skin cut at 1..2 (4) symbolic positions leaves k0,kG0,kM unchanged; results after a re-definition of the assembly follow the current definition; stiffener contributions = Hessians of their own energies (BladeStiff1D flange beam energy, BladeStiff2D / TStiff2D connection mismatch energies) and the pointwise PSD condition of the flange form (refuted for coupled flange laminates: recorded finding).',
